@@ -974,9 +974,21 @@ def run(tier='quick'):
     zu = prog.func(ENG + 'zlib_uncompress')
     chk.analysed(zc)
     chk.analysed(zu)
-    c02._deflate_complete(prog, chk, S6, zc)
-    c02._pending_output(prog, chk, S6, zc, 'deflate')
-    c02._pending_output(prog, chk, S6, zu, 'inflate')
+    try:
+        c02._deflate_complete(prog, chk, S6, zc)
+        c02._pending_output(prog, chk, S6, zc, 'deflate')
+        c02._pending_output(prog, chk, S6, zu, 'inflate')
+    except AnalysisBroken as e:
+        chk.fail_broken('S6: %s' % e)
+    from . import extra
+    S10 = chk.rule('S10', 'the fixed-width primitives every codec is built from are exact for every value: byte i at the bit '
+                          'position its byte order prescribes, 64-bit values from two 32-bit halves by shifts 0 and 32 with no '
+                          'sign extension or rounding of a half (rule L1 of C02)', floor=14)
+    extra.primitives_exact(prog, chk, S10)
+    S11 = chk.rule('S11', 'the decompressor returns exactly the bytes inflate() produced: the result is sized from the '
+                          'stream\'s output counters, or a test of them guards a throw (not from the length prefix alone)',
+                   floor=1)
+    extra.inflated_length_is_result_length(prog, chk, S11)
     return chk.finish('grammar extraction for %d encoder/decoder pairs from the clang AST; symbolic '
                       'extent computation; dominance of range guards; enumerator comparison for '
                       'sentinel constants' % len(grams))
